@@ -55,6 +55,16 @@ theorem C13_flex_push_refused_unchanged (it : Ty) (h : it.WF) (l : LenTy) (hl : 
   obtain ⟨o, h1, h2, _, h4⟩ := C12_push it h l hl i hw data items hc hend
   exact ⟨o, h1, h2, h4⟩
 
+/-- **C13 (FlexVec, `size()`).** A refused `push` — whichever way it is refused, and whatever the item's emplacer wrote into the
+spare room before it failed — leaves `size()` exactly as it was, for every item type, length type and state. -/
+theorem C13_flex_push_refused_size (it : Ty) (h : it.WF) (l : LenTy) (hl : l.Law) (i : Init) (hw : InitWT it i)
+    (data : Slice) (items : List (Nat × Bytes)) (hc : Chain it.dict l (max l.size it.dict.align) 0 data items)
+    (hend : data.len % max l.align it.dict.align = 0) (o : EO) (ho : flexPush it l i data = .ok o) (e : Err)
+    (hres : o.res = .error e) (f : Nat) (hf : data.len < f) :
+    flexSize it.dict l (max l.size it.dict.align) (max l.align it.dict.align) f 0 ⟨data.addr, o.bytes⟩ =
+      flexSize it.dict l (max l.size it.dict.align) (max l.align it.dict.align) f 0 data :=
+  flexPush_refused_size it l (Ty.law it h) (Ty.frameLaw it h) hl i (emplaceSpec_of_wt it h i hw) data items hc hend o ho e hres f hf
+
 /-- non-vacuity: a 3-byte item does not fit behind the one item of this 8-byte `FlexVec<FlatVec<u8,u8>, u8>`: refused, unchanged -/
 example : flexPush (.vec u8 L8) L8 (.vecArr [[1],[2],[3],[4],[5],[6]]) ⟨0, [255, 2, 7, 8, 9, 9, 9, 9]⟩ =
     .ok ⟨[255, 2, 7, 8, 9, 0, 9, 9], .error ⟨.insufficientSize, 5⟩⟩ := by decide +kernel
